@@ -150,7 +150,7 @@ pub(crate) mod arrays {
     // [Fp61BitPrime; 15] "ProofDiff" message (120 bytes): lane-wise canonical, lossless
     harness! {
         #[kani::unwind(18)]
-        fn t09_proof_diff() {
+        fn x09_proof_diff() {
             type ProofDiff = [Fp61BitPrime; 15];
             let bytes: [u8; 120] = kani::any();
             let k: usize = kani::any();
